@@ -67,6 +67,7 @@ type Encoder struct {
 	loopRefSyms []*Term
 	tiFacts     map[*Term]bool
 	loopWindows []*loopWindow
+	splits      []*Term
 	cryptOut    *Term
 	cryptOff    *Term
 	specPure    int
@@ -1168,13 +1169,15 @@ func (e *Encoder) convert(fr *frame, x *ssa.Convert) *SVal {
 	case kindOf(from) == KString && kindOf(to) == KSlice:
 		// []byte(s): fresh object with the same contents at the same offsets
 		ref := e.newAlloc()
+		smem := e.get(e.cur, "mem:str", Arr(RefS, Arr(BV64, BV8)))
 		mem := e.get(e.cur, "mem:bv8", Arr(RefS, Arr(BV64, BV8)))
-		e.set(e.cur, "mem:bv8", c.Store(mem, ref, c.Select(mem, v.Base)))
+		e.set(e.cur, "mem:bv8", c.Store(mem, ref, c.Select(smem, v.Base)))
 		return &SVal{K: KSlice, Typ: to, Base: ref, Off: v.Off, Len: v.Len, Cap: v.Len}
 	case kindOf(from) == KSlice && kindOf(to) == KString && elemClass(from.Underlying().(*types.Slice).Elem()) == "mem:bv8":
 		ref := e.newAlloc()
 		mem := e.get(e.cur, "mem:bv8", Arr(RefS, Arr(BV64, BV8)))
-		e.set(e.cur, "mem:bv8", c.Store(mem, ref, c.Select(mem, v.Base)))
+		smem := e.get(e.cur, "mem:str", Arr(RefS, Arr(BV64, BV8)))
+		e.set(e.cur, "mem:str", c.Store(smem, ref, c.Select(mem, v.Base)))
 		return &SVal{K: KString, Typ: to, Base: ref, Off: v.Off, Len: v.Len}
 	case kindOf(from) == KPtr && kindOf(to) == KPtr, kindOf(from) == KString && kindOf(to) == KString:
 		return e.changeType(v, to)
@@ -1195,8 +1198,8 @@ func (e *Encoder) convert(fr *frame, x *ssa.Convert) *SVal {
 		same := c.Forall([]*Term{k2}, c.Implies(c.BVCmp("bvult", k2, v.Len), c.Eq(c.Select(A, k2), c.Extract(7, 0, rk2))))
 		e.assumeFact(c.Implies(allASCII, c.And(c.Eq(L, v.Len), same)))
 		e.assumeFact(c.BVCmp("bvule", L, c.BVBin("bvmul", v.Len, c.BVLit(4, 64))))
-		mem := e.get(e.cur, "mem:bv8", Arr(RefS, Arr(BV64, BV8)))
-		e.set(e.cur, "mem:bv8", c.Store(mem, ref, A))
+		mem := e.get(e.cur, "mem:str", Arr(RefS, Arr(BV64, BV8)))
+		e.set(e.cur, "mem:str", c.Store(mem, ref, A))
 		e.trusted["string([]rune) is the identity on ASCII code points (UTF-8)"] = true
 		return &SVal{K: KString, Typ: to, Base: ref, Off: c.BVLit(0, 64), Len: L}
 	}
@@ -1402,7 +1405,7 @@ func (e *Encoder) lookup(fr *frame, x *ssa.Lookup) {
 		i := c.Resize(iv.T, 64, isSigned(x.Index.Type()))
 		e.oblige("index", fr.anchorFor(e, x, "strindex"), "string index within length", c.BVCmp("bvult", i, xv.Len), x.Pos())
 		e.assume(c.BVCmp("bvult", i, xv.Len))
-		mem := e.get(e.cur, "mem:bv8", Arr(RefS, Arr(BV64, BV8)))
+		mem := e.get(e.cur, "mem:str", Arr(RefS, Arr(BV64, BV8)))
 		fr.vals[x] = &SVal{K: KScalar, Typ: x.Type(), T: c.Select(c.Select(mem, xv.Base), c.BVBin("bvadd", xv.Off, i))}
 		return
 	}
